@@ -87,4 +87,4 @@ reg("C11", "C11", _c11, "exploration", {"quick": 360, "thorough": 6000},
          "resp. (threads, strategy, #switches, switch locations)",
     stubs=["objective function", "constraint functions", "callback", "sys.stdout (StringIO)",
            "thread scheduling (seeded baton scheduler; real threading.Thread objects)"],
-    budget_s={"quick": 600, "thorough": 3300}, det_n=4, isolate=True)
+    budget_s={"quick": 600, "thorough": 3300}, det_n=4, isolate=True, case_timeout=400)
